@@ -709,7 +709,7 @@ func (c caseRec) coq() string {
 }
 
 func (w *world) step(c *caseRec, o op) string {
-	if len(c.Ops)%8 == 7 {
+	if len(c.Ops)%8 == 7 && w.api != nil {
 		w.restList()
 		w.checkGetAll()
 	}
@@ -1446,6 +1446,17 @@ func main() {
 			c := w.genCase(r, kind, 14, lockedMode)
 			emit(c, []string{"gen:gc-interleavings", "gen:service-histories", "gen:mixed-with-odd-ids"}[kind])
 		}
+	}
+	if *replay == "" {
+		// last: two more servers in the process disturb the timing of everything else
+		t0 := time.Now()
+		rec, cleanup := leadershipRoundTrip(w)
+		if rec != nil && !leaderLost {
+			emit(*rec, "directed:leadership-round-trip")
+		}
+		leaderLost = false
+		cleanup()
+		R.Notes = append(R.Notes, fmt.Sprintf("leadership round trip A->B->A on two real members (incl. close): %.1fs", time.Since(t0).Seconds()))
 	}
 	if err := cf.Flush(); err != nil {
 		panic(err)
